@@ -9,16 +9,17 @@
 
   What a Lean theorem can carry here is the LOGIC, not the Go memory model. Ingredients:
    (i)  `Algobra.Gen.effects` — the syntactic write-effect table REGENERATED from /repo on every run by
-        /verif/extract/effects.go (direct writes `typed`, may-writes `writes` closed under a name-based
-        call graph, callee names `calls`). Parts A and B below are re-checked against that table by
+        /verif/extract/effects.go (direct writes `typed`, may-writes `writes` closed under a TYPE-resolved
+        call graph, keys of the possible callees `calls`). Parts A and B below are re-checked against that table by
         kernel evaluation (`decide +kernel`, no `native_decide`): a new assignment to a field of a shared
         struct, or a new call path from an in-scope operation to a writer, breaks the proof.
    (ii) an abstract footprint semantics (Proofs/Effects.lean §3) for the scheduling argument (part E).
    (iii) the model `BPoly.Ideal` with its tri-state flags for the guard argument (part C).
 
-  Stated unsound corners of (i), inherited from the extractor (see its header comment): calls are
-  resolved by NAME without types (over-approximation of callees — the safe direction), call results
-  are assumed fresh, function values/closures invoked indirectly are not followed; a direct write is
+  Assumptions of (i), inherited from the extractor (see its header comment): calls are resolved by TYPE
+  (go/types: static callee, method of the concrete type, implementers of the interface in the repository,
+  functions of identical signature for function values), call results are assumed fresh, functions outside
+  the repository are not analysed (their list is pinned by `outside_calls`); a direct write is
   attributed to the declared type of the ROOT parameter of its access path (so `f.baseRing.id.x = …`
   inside a `Polynomial` method would be listed as "Polynomial.baseRing" — see `pointer_field_writers`).
   The Go packages have no mutable package-level variables (only `var _ ff.Element = &Element{}`
@@ -58,10 +59,6 @@ def expected : List (String × String) := [
   ("bivariate.Ideal.ReduceBasis", "Ideal.isReduced"),
   -- private helper that normalises the generators in place; called only by MinimizeBasis and IsMinimal
   ("bivariate.Ideal.leadingTerms", "Ideal.generators"),
-  -- alias artefact: `id := &Ideal{ring: r.ring, …}` is a FRESH object which the extractor treats as an
-  -- alias of `r` because the literal mentions `r`; `id.generators = append(…)` fills the fresh ideal
-  -- (QuotientRing has no field `generators`). Constructor, out of scope anyway
-  ("bivariate.QuotientRing.NewIdeal", "QuotientRing.generators"),
   -- set-up call (variable names of the ring)
   ("bivariate.QuotientRing.SetVarNames", "QuotientRing.varNames"),
   -- explicit table set-up ("once any tables have been computed"), itself guarded by `logTable == nil`
@@ -69,9 +66,6 @@ def expected : List (String × String) := [
   -- explicit table set-up, guarded by `addTable == nil` / `multTable == nil`
   ("primefield.Field.ComputeTables", "Field.addTable"),
   ("primefield.Field.ComputeTables", "Field.multTable"),
-  -- alias artefact: `qr := &QuotientRing{ring: r.ring, id: nil}` is the FRESH ring being built;
-  -- `qr.id = idConv` completes it, the receiver `r` is not written. Constructor, out of scope anyway
-  ("univariate.QuotientRing.Quotient", "QuotientRing.id"),
   -- set-up call (variable name of the ring); `extfield.Define` also calls it, on the private ring it has
   -- just created
   ("univariate.QuotientRing.SetVarName", "QuotientRing.varName")]
@@ -84,9 +78,8 @@ theorem shared_writes_whitelist : sharedWrites Gen.effects = expected := by deci
 def sharedWriterKeys : List String := [
   "binfield.Field.SetVarName", "bivariate.Ideal.IsGroebner", "bivariate.Ideal.IsMinimal",
   "bivariate.Ideal.IsReduced", "bivariate.Ideal.MinimizeBasis", "bivariate.Ideal.ReduceBasis",
-  "bivariate.Ideal.leadingTerms", "bivariate.QuotientRing.NewIdeal", "bivariate.QuotientRing.SetVarNames",
-  "extfield.Field.ComputeMultTable", "primefield.Field.ComputeTables", "univariate.QuotientRing.Quotient",
-  "univariate.QuotientRing.SetVarName"]
+  "bivariate.Ideal.leadingTerms", "bivariate.QuotientRing.SetVarNames",
+  "extfield.Field.ComputeMultTable", "primefield.Field.ComputeTables", "univariate.QuotientRing.SetVarName"]
 
 theorem shared_writer_keys : (Gen.effects.filter isSharedWriter).map (·.key) = sharedWriterKeys := by
   decide +kernel
@@ -118,7 +111,7 @@ def setupNames : List String := ["Define", "ComputeTables", "ComputeMultTable", 
 /-- operations in the property's scope: every exported function/method whose name is not a set-up name -/
 def inScope (f : Fn) : Bool := f.exported && !nameIn f setupNames
 
-/-- The functions that are NOT reachable (name-based call graph) from the in-scope operations: the
+/-- The functions that are NOT reachable (type-resolved call graph) from the in-scope operations: the
     set-up API and its private helpers. (`GroebnerBasis` and `IsGroebner` are set-up names but ARE
     reachable — `Ideal.Reduce` calls both — and are therefore not in this list.)
     `#eval (effects.map (·.key)).filter (fun k => !(reachKeys effects inScope).contains k)` returns
@@ -136,7 +129,7 @@ def setupOnly : List String := [
 /-- no in-scope operation is in `setupOnly` -/
 theorem roots_avoid_setup : rootsCheck Gen.effects inScope setupOnly = true := by decide +kernel
 
-/-- no function outside `setupOnly` calls (by name) a function inside `setupOnly` -/
+/-- no function outside `setupOnly` may call (type-resolved callees) a function inside `setupOnly` -/
 theorem setup_closed : closedCheck Gen.effects setupOnly = true := by decide +kernel
 
 /-- every entry of `setupOnly` names a function of the current table (no stale entries) -/
@@ -145,8 +138,7 @@ theorem setupOnly_present :
 
 /-- the shared writers that may be reached, through the lazily written Gröbner flag only:
     `(*Polynomial).reduce` → `Ideal.Reduce` → `IsGroebner`, which assigns `isGroebner` only when the flag
-    is 0 (part C: it is 1 for every ideal inside a quotient ring). The name-based over-approximation
-    drags in NOTHING else. -/
+    is 0 (part C: it is 1 for every ideal inside a quotient ring). Nothing else. -/
 def guarded_writers : List String := ["bivariate.Ideal.IsGroebner"]
 
 /-- among the functions outside `setupOnly`, the shared writers are exactly the guarded ones -/
@@ -154,7 +146,7 @@ theorem nonsetup_shared_writers :
     (Gen.effects.filter fun f => !memC f.key setupOnly && isSharedWriter f).map (·.key) = guarded_writers := by
   decide +kernel
 
-/-- **B.** No function reachable (name-based call graph of the regenerated table) from the operations
+/-- **B.** No function reachable (type-resolved call graph of the regenerated table) from the operations
     in the property's scope assigns a field of a `Field`, `table`, `ring`, `QuotientRing` or `Ideal`
     object — except `bivariate.Ideal.IsGroebner`, whose write is guarded by the flag. -/
 theorem no_shared_write_reachable {f : Fn} (h : Reachable Gen.effects inScope f)
@@ -167,6 +159,9 @@ theorem no_shared_write_reachable {f : Fn} (h : Reachable Gen.effects inScope f)
     | true => exact absurd (memC_iff.1 hm) hsafe
   rw [← nonsetup_shared_writers]
   exact List.mem_map.2 ⟨f, List.mem_filter.2 ⟨hmem, by simp [hm, hw]⟩, rfl⟩
+
+-- the code-prefix test of `no_global_writes` does recognise such an entry
+example : (code "global:primefield.defaultField") % (257 ^ 7) == code "global:" := by decide +kernel
 
 -- non-vacuity, and the exception is real: the in-scope operation `bivariate.Ideal.Reduce` calls
 -- `IsGroebner`, so the guarded writer IS reachable
@@ -194,7 +189,7 @@ theorem nonsetup_direct_writes :
     (nonsetupTyped.all fun s => (Gen.effects.filter fun f => !memC f.key setupOnly).any fun f => memC s f.typed) = true := by
   decide +kernel
 
-/-- May-writes (closed under the name-based call graph, through any parameter) of all functions outside
+/-- May-writes (closed under the type-resolved call graph, through any parameter) of all functions outside
     `setupOnly`: the last path components are fields of iterators, elements, polynomials and parser
     scratch objects, plus the guarded flag — never `addTable`, `multTable`, `logTable`, `varName(s)`,
     `generators`, `isMinimal`, `isReduced`, `id`, `ring`, `baseField`, `ord`. -/
@@ -205,6 +200,47 @@ theorem nonsetup_may_write_fields :
     ((Gen.effects.filter fun f => !memC f.key setupOnly).all fun f => f.writes.all fun w => memC w.2 nonsetupMayFields) = true ∧
     (nonsetupMayFields.all fun s => (Gen.effects.filter fun f => !memC f.key setupOnly).any fun f =>
         f.writes.any fun w => code w.2 == code s) = true := by
+  decide +kernel
+
+/-- **B′ (may-writes, full strength).** A function outside the documented set-up functions `setupOnly`
+    may-write — through any parameter, directly or through anything it may call — only fields named in
+    `nonsetupMayFields`: never `addTable`, `multTable`, `logTable`, `varName`, `varNames`, `generators`,
+    `isMinimal`, `isReduced`, `id`, `ring`, `baseField`, `ord`, `char`, `extDeg`, `conwayPoly`, `polyRing`,
+    i.e. no field of a shared `Field`/`table`/`ring`/`QuotientRing`/`Ideal` object except the guarded flag
+    `isGroebner` (`baseRing`, `field` are the re-homing of the receiver ITSELF by `EmbedIn` / `Prod`). -/
+theorem nonsetup_may_writes {f : Fn} (hf : f ∈ Gen.effects) (hs : f.key ∉ setupOnly)
+    {w : Nat × String} (hw : w ∈ f.writes) : w.2 ∈ nonsetupMayFields := by
+  have h := nonsetup_may_write_fields.1
+  have hm : memC f.key setupOnly = false := by
+    cases hm : memC f.key setupOnly with
+    | false => rfl
+    | true => exact absurd (memC_iff.1 hm) hs
+  have := (List.all_eq_true.1 ((List.all_eq_true.1 h) f (List.mem_filter.2 ⟨hf, by simp [hm]⟩))) w hw
+  exact memC_iff.1 this
+
+/-- **no package-level variable is written anywhere**: no function of the repository has a direct write
+    rooted at a package-level variable ("global:pkg.v"); with `Reachable` closed under calls this holds for
+    everything any operation may call. -/
+theorem no_global_writes :
+    (Gen.effects.all fun f => f.typed.all fun s => !((code s) % (257 ^ 7) == code "global:")) = true := by
+  decide +kernel
+
+/-- the functions OUTSIDE the repository that the library calls ("ext:…"; the extractor assumes that they
+    write nothing reachable from their arguments except `copy`/`delete`/`sort.Slice`, which it books) and
+    the signatures of the function values it calls ("dyn:…": comparison functions of monomial orders, table
+    initialisers, random sources — all literals of the repository with these signatures are analysed as part
+    of their enclosing functions). A call of anything else (`unsafe`, `reflect`, `sync/atomic`, I/O) changes
+    this list. -/
+theorem outside_calls : outsideCalls Gen.effects = [
+    "ext:bits.Len", "ext:bits.OnesCount", "ext:strconv.FormatUint", "ext:strings.Builder.String",
+    "ext:strings.Builder.Write", "ext:strings.Builder.WriteByte", "ext:strings.Builder.WriteString", "ext:regexp.Compile",
+    "ext:regexp.QuoteMeta", "ext:regexp.Regexp.FindAllStringSubmatch", "ext:strconv.ParseUint", "dyn:func()uint",
+    "ext:rand.Uint32", "ext:rand.Uint64", "ext:strings.TrimSpace", "ext:fmt.Sprintf", "ext:rand.Seed", "ext:time.Now",
+    "ext:time.Time.UTC", "ext:time.Time.UnixNano", "ext:fmt.Fprint", "dyn:func(deg1[2]uint,deg2[2]uint)(outint)",
+    "dyn:func(deg1[2]uint,deg2[2]uint)int", "ext:sort.Slice", "ext:strings.ToLower", "dyn:func(int,int)[2]uint",
+    "ext:strings.Trim", "ext:regexp.Regexp.FindStringSubmatch", "ext:strings.Split", "ext:error.Error", "ext:fmt.Fprintf",
+    "ext:fmt.Errorf", "ext:regexp.MustCompile", "ext:strconv.ParseInt", "dyn:func(iuint,juint)uint",
+    "ext:strconv.FormatInt"] := by
   decide +kernel
 
 /-! ## C. the guard: the Gröbner flag of an ideal inside a quotient ring is never written -/
